@@ -6,6 +6,7 @@ import (
 	"sort"
 	"strings"
 	"sync"
+	"time"
 
 	"google.golang.org/grpc"
 
@@ -23,6 +24,8 @@ type RecMetrics struct {
 	table   map[string]map[string]int // name -> "kind|l1,l2" -> count
 	panics  []string
 	Emitted int64
+	// Slow makes the emission of the named metrics take that long (a metrics sink is allowed to be slow)
+	Slow map[string]time.Duration
 }
 
 var (
@@ -46,6 +49,9 @@ func NewRecMetrics(real bool) *RecMetrics {
 }
 
 func (r *RecMetrics) rec(kind, name string, tags []metrics.T) {
+	if d, ok := r.Slow[name]; ok {
+		time.Sleep(d)
+	}
 	names := make([]string, 0, len(tags))
 	for _, t := range tags {
 		names = append(names, t.Name)
